@@ -716,3 +716,159 @@ entry("C02", modules=["contracts.c02_maps"],
                   "against set algebra incl. frame (new-returning methods leave receiver and arguments untouched and return "
                   "an unshared object; in-place ones modify / return the receiver; aliasing o.op(o) included). Known defect "
                   "reproduced as failing obligations of the case `repeats-allowed` of _unlink_inds.")
+
+
+# ---- label calculus (contracts/c09_labels.py): state / operator conventions of C09, C10, C13 -------------------------
+_AG = "quimb/tensor/tnag/core.py"
+_T1 = "quimb/tensor/tn1d/core.py"
+_DM = "quimb/tensor/tn1d/dmrg.py"
+_LABEL_TRUSTED = [
+    "CONVENTION (fixed once for the label calculus, checked at run time by the bounded drivers against to_dense): the "
+    "dense form of an operator network has rows = its UPPER labels and columns = its LOWER labels; A.apply(x) contracts "
+    "A's lower labels with x; tn.H is element-wise conjugation only (for operators NOT the adjoint); the matrix element "
+    "<b|A|k> is the network in which the CONJUGATED vector shares its labels with A's upper leg and the unconjugated one "
+    "with A's lower leg; two networks combined with | / & / |= are summed over the labels they share",
+    "FRESHNESS axiom: rand_uuid() returns an index id different from every id in existence (inputs, string literals of "
+    "the source, earlier uuids); two different string literals are two different ids; id.format(site) is injective in "
+    "(id, site) over the ids in play; get_symbol(0), get_symbol(1), ... are the distinct letters a, b, c, ...",
+    "leaf: TensorNetwork.reindex(map) replaces every occurrence of a key label by its value and touches nothing else; "
+    "copy() gives a distinct object in the same label state; .H / conj_() flip the conjugation ghost of every layer and "
+    "rename nothing; x |= A adds A's tensors to x (x keeps its class and declared ids); a | b, a & b make a new network",
+    "leaf: contraction of tags (^, >>=), fuse_multibonds_, compress, drop_tags, add_tag, retag_, replace_section_with_svd "
+    "rename no outer label; view_as_(cls, **props) stores the given properties without relabelling",
+    "leaf: f_ = functools.partialmethod(f, inplace=True); the property getters site_ind_id / upper_ind_id / lower_ind_id "
+    "return the private field; site_ind(x) / upper_ind(x) / lower_ind(x) = declared id .format(x)",
+    "SKOLEM SITE: every obligation is stated for one arbitrary site s (sets of sites are abstracted to the Boolean 's is "
+    "a member'); a statement proved for s holds for every site",
+]
+entry("C09", modules=["contracts.c09_labels"],
+      E1=[f"{_AG}::TensorNetworkGenVector.reindex_sites", f"{_AG}::TensorNetworkGenOperator.reindex_upper_sites",
+          f"{_AG}::TensorNetworkGenOperator.reindex_lower_sites", f"{_AG}::TensorNetworkGenVector.site_ind_id",
+          f"{_AG}::TensorNetworkGenOperator.upper_ind_id", f"{_AG}::TensorNetworkGenOperator.lower_ind_id",
+          f"{_AG}::tensor_network_align", f"{_AG}::TensorNetworkGen.align", f"{_AG}::tensor_network_apply_op_vec",
+          f"{_AG}::tensor_network_apply_op_op", f"{_AG}::TensorNetworkGenOperator.apply",
+          f"{_T1}::TensorNetwork1DVector.reindex_sites", f"{_T1}::MatrixProductState.partial_trace_to_mpo",
+          f"{_T1}::expec_TN_1D", f"{_T1}::TensorNetwork1DVector.expec"],
+      TRUSTED=_LABEL_TRUSTED,
+      ASSUMPTIONS=[
+          "label calculus: index ids are elements of an uninterpreted sort with equality only; networks are heap objects "
+          "with declared ids and ghost layers (conj, present, label id per physical leg); inputs are well formed (the "
+          "labels on a present site are those of the declared ids, upper id != lower id) -- a requires clause that is "
+          "re-proved for every result (aligned-wf)",
+          "operator setters raise ValueError when the new id equals the operator's other id: the contracts of the callers "
+          "carry the corresponding requires (ids-distinct-*): tensor_network_align needs level id j-1 != old lower id of "
+          "operator j and level id j != new upper id; all of them hold by freshness inside apply_op_vec / apply_op_op / "
+          "DMRG.__init__",
+          "tensor_network_align: kinds enumerated = every sequence of length 2-4 over {vector, operator} x ind_ids None | "
+          "given x inplace x trace (trace only with an operator first and last: it reads tns[0].upper_ind_id)",
+          "apply_op_vec / apply_op_op: the operator acts on a subset of the target's sites (requires A-acts-on-sites-of-"
+          "target); which_A / which_B in {lower, upper, other}; (contract, fuse_multibonds, compress) enumerated over "
+          "four combinations covering every branch; inplace x inplace_A fully",
+          "partial_trace_to_mpo: keep is a sequence or a slice; upper_ind_id != site_ind_id (otherwise nothing is kept "
+          "apart: requires); the site renumbering of rescale_sites is abstracted to 'every entry maps id.format(old) to "
+          "the same id.format(new)' + one entry per kept site for both ids (counting invariant)",
+          "expec_TN_1D: sequences (v,v), (v,o,v), (v,o,o,v) and the raising (v,v,v); requires that the first vector's id "
+          "is not one of the LATER generated level ids '__ind_b{}__', ... (native: ValueError 'index appears more than "
+          "twice' -- see final report)"],
+      BOUNDED_FOR={
+          "tensor_network_align": ["expec_TN_1D(bra, ops..., ket)"],
+          "TensorNetworkGen.align": ["expec_TN_1D(bra, ops..., ket)"],
+          "tensor_network_apply_op_vec": ["the documented pair of label families is contracted", "MPO.apply(MPS) == A @ a",
+                                          "sub-MPO on a subset of sites applied to an MPS"],
+          "tensor_network_apply_op_op": ["the documented pair of label families is contracted", "MPO.apply(MPS) == A @ a",
+                                         "sub-MPO on a subset of sites applied to an MPO"],
+          "TensorNetworkGenOperator.apply": ["MPO.apply(MPS) == A @ a", "sub-MPO on a subset of sites"],
+          "MatrixProductState.partial_trace_to_mpo": ["MPS.partial_trace_to_mpo(keep)", "partial_trace_to_mpo(keep)"],
+          "TensorNetwork1DVector.reindex_sites": ["MPS.partial_trace_to_mpo(keep)"],
+          "TensorNetworkGenVector.reindex_sites": ["sub-MPO on a subset of sites applied to an MPS"],
+          "TensorNetworkGenOperator.reindex_upper_sites": ["sub-MPO on a subset of sites applied to an MPO"],
+          "TensorNetworkGenOperator.reindex_lower_sites": ["the documented pair of label families is contracted"],
+          "TensorNetworkGenVector.site_ind_id": ["expec_TN_1D(bra, ops..., ket)"],
+          "TensorNetworkGenOperator.upper_ind_id": ["expec_TN_1D(bra, ops..., ket)", "MPO.apply(MPS) == A @ a"],
+          "TensorNetworkGenOperator.lower_ind_id": ["expec_TN_1D(bra, ops..., ket)", "MPO.apply(MPS) == A @ a"],
+          "expec_TN_1D": ["expec_TN_1D(bra, ops..., ket)"],
+          "TensorNetwork1DVector.expec": ["expec_TN_1D(bra, ops..., ket)", "MPS overlap / norm / distance"]},
+      EXPLANATION="E1 (label calculus, one arbitrary site, for all networks / ids): the partial renames "
+                  "reindex_sites / reindex_upper_sites / reindex_lower_sites and the three declared-id setters (strongest "
+                  "form: every label slot of every layer); tensor_network_align for every vector/operator sequence of "
+                  "length 2-4 (network j joins j+1, a FIRST vector sits on the operator's UPPER labels, a LAST one on the "
+                  "LOWER labels, documented level ids, first network unchanged without ind_ids, trace, frame); "
+                  "apply_op_vec / apply_op_op for all which_A / which_B (the result denotes the documented dense product "
+                  "under the target's ORIGINAL ids, joined through a fresh id, renamed ONLY where A acts -- finding 7); "
+                  "Operator.apply dispatch; partial_trace_to_mpo (upper id on the unconjugated layer -- finding 15); "
+                  "expec_TN_1D / MPS.expec (bra first, ket last).")
+
+entry("C10", modules=["contracts.c09_labels"],
+      E1=[f"{_AG}::tensor_network_align", f"{_AG}::TensorNetworkGen.align", f"{_DM}::DMRG.__init__",
+          f"{_DM}::DMRGX.__init__", f"{_DM}::DMRG.form_local_ops", f"{_DM}::DMRGX.form_local_ops",
+          f"{_DM}::DMRG._update_local_state_1site", f"{_DM}::parse_2site_inds_dims",
+          f"{_DM}::DMRG._update_local_state_2site"],
+      TRUSTED=_LABEL_TRUSTED + [
+          "leaf: MPO.rand_state gives a new well formed unconjugated state with site id 'k{}' on every site of the "
+          "operator; MPO.identity gives a well formed operator with the same declared ids on the same sites",
+          "leaf: the effective tensor (ME_eff_ham() ^ '_HAM')['_HAM'] has exactly the labels of the bra and ket site "
+          "tensors as open legs; Tensor.to_dense(rows, cols) fuses `rows` into the row and `cols` into the column index; "
+          "TNLinearOperator(tn, left_inds, right_inds): left_inds index the rows (output of matvec); eigh(A, B, v0) "
+          "returns a column vector in A's column order; Tensor.split(left_inds, right_inds, get='arrays') returns the "
+          "factors with axes (left_inds..., bond) and (bond, right_inds...)",
+          "class invariant of the solver object (assumed on entry of the local updates, re-established by them): _b[i] "
+          "holds the element-wise conjugate of _k[i] with corresponding axis order"],
+      ASSUMPTIONS=[
+          "DMRG.__init__ / DMRGX.__init__: only the label bookkeeping is interpreted; schedules, options and energies "
+          "are opaque.  p0 None | given; cyclic symbolic.  DMRGX: requires p0.site_ind_id != '__ham2{}__' (the literal id "
+          "of the middle level; otherwise the operator setter raises ValueError)",
+          "form_local_ops: opts['local_eig_ham_dense'] and opts['local_eig_norm_dense'] in {None, True, False}, cyclic "
+          "symbolic; the 1-site / 2-site updates are verified for an arbitrary site i, direction right | left",
+          "the sweep discipline / mpsghost part of the design's P list for C10 (sweep, MovingEnvironment ranges, bond "
+          "schedule) is NOT covered by this module"],
+      BOUNDED_FOR={
+          "DMRG.__init__": ["DMRG (complex Hermitian H)", "DMRG: reported energy == psi^dag H psi"],
+          "DMRGX.__init__": ["DMRGX"],
+          "DMRG.form_local_ops": ["DMRG (complex Hermitian H)", "DMRG: reported energy == psi^dag H psi",
+                                  "DMRG on a periodic MPO"],
+          "DMRGX.form_local_ops": ["DMRGX"],
+          "DMRG._update_local_state_1site": ["DMRG (complex Hermitian H)", "DMRG: reported energy == psi^dag H psi"],
+          "DMRG._update_local_state_2site": ["DMRG (complex Hermitian H)", "DMRG: reported energy == psi^dag H psi"],
+          "parse_2site_inds_dims": ["DMRG (complex Hermitian H)"],
+          "tensor_network_align": ["DMRG (complex Hermitian H)"], "TensorNetworkGen.align": ["DMRG (complex Hermitian H)"]},
+      EXPLANATION="E1 (label calculus): DMRG.__init__ builds <b|ham|k>: _b is the conjugate of _k and sits on ham's UPPER "
+                  "(row) labels, _k on the LOWER (column) labels and keeps its site id (finding 11), ham / p0 only copied; "
+                  "DMRGX.__init__: TN_energy2 = <b|H H|k> in the same convention; form_local_ops (dense and linear-operator "
+                  "routes, ham and norm): rows = lix, columns = uix; parse_2site_inds_dims: lix from the bra, uix / dims "
+                  "from the ket, own bond excluded, order (i, i+1); the 1-site and 2-site updates hand the eigensolver "
+                  "Heff[rows = bra labels, columns = ket labels] and a ket-ordered initial guess, and write the result back "
+                  "as (ket data, ket labels) / (conjugated data, bra labels).")
+
+entry("C13", modules=["contracts.c09_labels"],
+      E1=[f"{_AG}::TensorNetworkGenVector.make_reduced_density_matrix", f"{_AG}::TensorNetworkGenVector.partial_trace_exact",
+          f"{_AG}::TensorNetworkGenVector.local_expectation_exact", f"{_AG}::TensorNetworkGenVector.reindex_sites",
+          f"{_T1}::TensorNetwork1DVector.reindex_sites", f"{_T1}::MatrixProductState.partial_trace_to_mpo"],
+      TRUSTED=_LABEL_TRUSTED + [
+          "leaf: tn.contract(output_inds=X) returns a tensor whose axes are X in that order; Tensor.to_dense(rows, cols); "
+          "tensordot(a, b, axes=(A, B)) sums over the pairs (axis A[j] of a, axis B[j] of b); a C-order reshape of a "
+          "D x D matrix to (d_1..d_n, d_1..d_n) puts the row index on the first n axes; an operator in tensor form has the "
+          "row index of site j on axis j and the column index on axis n+j; <psi|G|psi> = sum_{k,b} psi[k] conj(psi)[b] "
+          "G[b,k]",
+          "label level of make_reduced_density_matrix: one ARBITRARY label l of the state (skolem label) with the "
+          "definitional facts 'l is site_ind(c) for the site c at position p of gen_site_coos, or is no site label' and "
+          "'l is the key at position q of ind_map' (dict keys and sites are distinct); l + mangle_append is a label "
+          "different from every label of the state (no check is made by quimb: check_collisions=False)"],
+      ASSUMPTIONS=[
+          "where: a single site | a sequence of symbolic length ng >= 1 (local_expectation_exact: sequence only -- it takes "
+          "len(where)); normalized in {True, False, 'return'}; get in {matrix, array, tensor, other}; rehearse in {False, "
+          "True}; G as a matrix or as a 2*ng-dimensional array; allow_dangling in {True, False}",
+          "the tensordot pairing obligation is proved for EVERY ng (symbolic length, skolem axis position), not by "
+          "enumeration"],
+      BOUNDED_FOR={
+          "TensorNetworkGenVector.make_reduced_density_matrix": ["make_reduced_density_matrix(where)"],
+          "TensorNetworkGenVector.partial_trace_exact": ["partial_trace_exact(where)"],
+          "TensorNetworkGenVector.local_expectation_exact": ["local_expectation_exact"],
+          "MatrixProductState.partial_trace_to_mpo": ["partial_trace_to_mpo(keep)"],
+          "TensorNetwork1DVector.reindex_sites": ["partial_trace_to_mpo(keep)"],
+          "TensorNetworkGenVector.reindex_sites": ["partial_trace_to_mpo(keep)"]},
+      EXPLANATION="E1 (label calculus): make_reduced_density_matrix for an arbitrary label (two loop invariants): kept "
+                  "sites keep the ket label and get the bra label, traced sites share it, every other non-dangling label "
+                  "is mangled on the bra only, the bra layer is the conjugate; partial_trace_exact: axes (*k, *b) in the "
+                  "order of where, rows = ket labels, normalised exactly once iff normalized is True, 'return' gives the "
+                  "unnormalised rho and its trace; local_expectation_exact: the tensordot pairing is sum rho[k,b] G[b,k] "
+                  "for every ng; partial_trace_to_mpo: the declared upper id labels the unconjugated layer (finding 15).")
